@@ -248,6 +248,19 @@ def model_values(j):
     return np.array(conv(j["data"], len(j["shape"])), dtype=np.float64).reshape(tuple(j["shape"]) + (-1,))
 
 
+def stack_shapes9(case):
+    """the layer shapes of a case: layer i is shaped like layer i mod 2, plus `extra[i]` more samples (same-parity layers of
+    different lengths; absent = a crossed stack)"""
+    ex = case.get("extra") or [0] * case["n"]
+    return [[case["shapes"][i % 2][0], case["shapes"][i % 2][1] + ex[i]] for i in range(case["n"])]
+
+
+def extra_ok(case):
+    ex = case.get("extra")
+    return ex is None or (isinstance(ex, list) and len(ex) == case["n"]
+                          and all(isinstance(v, int) and not isinstance(v, bool) and 0 <= v <= 64 for v in ex))
+
+
 class StepRaised(Exception):
     """a change of the object that the model performs raised in pewlib"""
 
@@ -383,7 +396,21 @@ class C09(Prop):
         self.gen_ctor(rng, case)
         if rng.random() < 0.3:
             self.gen_cal(rng, case)
+        self.gen_extra(rng, case, 0.25)
         return case
+
+    def gen_extra(self, rng, case, p):
+        """same-parity layers of different lengths: every layer from the third on may have more samples than the layer kind's
+        first one (never fewer: every layer holds what is read from it when the first two do)"""
+        if case["n"] >= 3 and rng.random() < p:
+            ex = [0, 0] + [rng.choice([0, 1, 2, 5]) for _ in range(case["n"] - 2)]
+            if not any(ex):
+                ex[rng.randrange(2, case["n"])] = rng.choice([1, 3])
+            if rng.random() < 0.3:  # the first layers the longest
+                ex = [max(ex) - v for v in ex]
+                if not any(ex[2:]) and ex[0] == ex[1] == 0:
+                    ex[2] = 1
+            case["extra"] = ex
 
     def gen_cal(self, rng, case):
         """calibrations of the elements (a quarter of them the default one, never all) and 1-3 calls of get made before the
@@ -512,6 +539,7 @@ class C09(Prop):
         self.gen_ctor(rng, case)
         if rng.random() < 0.5:
             self.gen_cal(rng, case)
+        self.gen_extra(rng, case, 0.2)
         M, n = case["mag"], case["n"]
         (l0, s0), (l1, s1) = case["shapes"]
         pairs_cur = case["pairs"]
@@ -745,6 +773,12 @@ class C09(Prop):
         yield {**hcal, "steps": [{"op": "setdata", "names": ["P", "A"], "via": "list"}], "creads_at": "mid"}
         yield {**hcal, "steps": [{"op": "scribble"}], "ctor": "from_list"}
         yield {**hcal, "steps": [{"op": "replace", "layer": 1}], "ctor": "from_lasers"}
+        # ---- same-parity layers of different lengths
+        rag = {**base, "spotsize": 70.0, "mag": 2, "warmup": 0.25, "pairs": [[1, 3], [1, 2]], "shapes": [[3, 5], [2, 7]], "nel": 2, "element": 1}
+        yield {**rag, "n": 3, "extra": [0, 0, 2]}
+        yield {**rag, "n": 5, "extra": [0, 0, 1, 4, 0]}
+        yield {**rag, "n": 4, "extra": [3, 2, 0, 0]}
+        yield {**rag, "n": 4, "extra": [0, 1, 2, 0], "kind": "history", "order": "std", "steps": [{"op": "edit", "layer": 2, "cells": [[0, 6]]}]}
         # ---- ONE raster attribute of the config assigned between two reconstructions (derived quantities must follow)
         p2 = {"spotsize": 70.0, "speed": 140.0, "scantime": 0.25}
         yield {**hbase, "steps": [{"op": "params", **p2, "spotsize": 35.0, "mag": 1, "only": "spotsize"}]}
@@ -814,10 +848,10 @@ class C09(Prop):
     def build_layers(self, case):
         """-> (arrays, encoded layers, fields, float scale, next unused token); arrays is None when the payload does not fit the dtype"""
         fields, fscale, ok = self.case_fields(case)
-        if not ok:
+        if not ok or not extra_ok(case):
             return None, None, fields, fscale, 0
         base = int(case.get("base", 1))
-        enc, fresh = self.enc_stack(stack_shapes(case), len(fields), base)
+        enc, fresh = self.enc_stack(stack_shapes9(case), len(fields), base)
         if not payload_ok(fields, enc, fscale):
             return None, enc, fields, fscale, fresh
         layers = [relayout(make_layer(fields, L["rows"], L["cols"], L["data"], fscale), case.get("layout")) for L in enc]
@@ -892,7 +926,7 @@ class C09(Prop):
             laser = SRRLaser(layers, calibration=caldict if (caldict or cal is not None) else None, config=cfg)
         st = {"ctor": ctor, "fields": fields, "enc": enc, "sops": [], "fscale": fscale, "fresh": fresh,
               "low": 1 if abs(int(case.get("base", 1))) >= 2**30 else None, "cal0": cal0}
-        cur = {"fields": [list(f) for f in fields], "shapes": [list(x) for x in stack_shapes(case)]}
+        cur = {"fields": [list(f) for f in fields], "shapes": [list(x) for x in stack_shapes9(case)]}
         if kind == "history":
             return self.eval_history(case, ctx, laser, st, cur)
         r = self.eval_state(case, ctx, laser, cfg, st, cur=cur)
@@ -957,8 +991,12 @@ class C09(Prop):
         mj = rep["config"]
         if not mj["integer_mag"] or mj["mag"] != case["mag"]:
             raise core.InternalError("generator: the model's float64 magnification is not the intended integer")
-        if not rep["crossed"]:
-            raise core.InternalError("generator: the stack is not crossed")
+        if not rep["lines_crossed"]:
+            raise core.InternalError("generator: the stack does not have the lines of a crossed stack")
+        if not rep["crossed"] and rep["valid_spec"] and not rep["all_long_enough"]:
+            # same-parity layers of different lengths, the first two long enough, a later one not: the validity check (which reads
+            # layers 0 and 1) accepts what cannot be reconstructed - DESIGN 9.5, outside the quantifier ("s exceeding the needed length")
+            return {"excluded": True}
         # ---- the stack the object should hold now (Lean): fields, layers
         fields = rep["fields"]
         names = [f[0] for f in fields]
@@ -1252,6 +1290,8 @@ class C09(Prop):
                 feats.add("layout:" + case["layout"])
             if any(d.startswith(">") for d in dts):
                 feats.add("dtype:big-endian")
+            if not rep["crossed"]:
+                feats.add("ragged: same-parity layers of different lengths")
             if n > 5:
                 feats.add("layers>5")
             if max(l0, l1) > 6:
@@ -1714,11 +1754,12 @@ class C09(Prop):
                 yield {**case, "creads_at": "first"}
         elif "cal" in case and not any(stp["op"] == "cal" for stp in case.get("steps", [])):
             yield {x: v for x, v in case.items() if x not in ("cal", "creads", "creads_at")}
-        for key in ("base", "scale", "dtype", "ctor"):
+        for key in ("base", "scale", "dtype", "ctor", "dtypes", "layout", "extra"):
             if key in case:
                 yield {x: v for x, v in case.items() if x != key}
         if case["n"] > 2:
-            yield {**case, "n": case["n"] - 1}
+            yield {**{k: v for k, v in case.items() if k != "extra"}, "n": case["n"] - 1,
+                   **({"extra": case["extra"][:-1]} if case.get("extra") else {})}
         if case["nel"] > 1:
             yield {**case, "nel": 1, "element": 0}
         if len(case["pairs"]) > 1:
